@@ -253,6 +253,14 @@ func init() {
 			rem := rd.get(st)
 			rl := sLen(SSeqI, rem)
 			var outs []Outcome
+			if x.faulty && x.fallibleSource(st, args[0]) {
+				f := st.fork()
+				k := f.fresh("consumed", SInt)
+				f.assume(tAnd(tCmp("<=", "0", k), tCmp("<=", k, rl)))
+				rd.set(f, sSl(SSeqI, rem, k, rl))
+				x.markFailed(f, "read")
+				outs = append(outs, Outcome{f, x.freshErr(f, "rderr")})
+			}
 			szNum, szConst := isNum(size)
 			// success
 			ok := st.fork()
@@ -623,9 +631,19 @@ func init() {
 				return one(st, x.symResult(st, cc))
 			}
 			rem := rd.get(st)
+			var outs []Outcome
+			if x.faulty && x.fallibleSource(st, args[1]) {
+				f := st.fork()
+				k := f.fresh("copied", SInt)
+				f.assume(tAnd(tCmp("<=", "0", k), tCmp("<=", k, sLen(SSeqI, rem))))
+				w.set(f, sApp(SSeqI, w.get(f), sSl(SSeqI, rem, "0", k)))
+				rd.set(f, sSl(SSeqI, rem, k, sLen(SSeqI, rem)))
+				x.markFailed(f, "read")
+				outs = append(outs, Outcome{f, TupleV{TV{SInt, k}, x.freshErr(f, "copyerr")}})
+			}
 			w.set(st, sApp(SSeqI, w.get(st), rem))
 			rd.set(st, sEmpty(SSeqI))
-			return one(st, TupleV{TV{SInt, sLen(SSeqI, rem)}, nilErr()})
+			return append(outs, Outcome{st, TupleV{TV{SInt, sLen(SSeqI, rem)}, nilErr()}})
 		})
 	ext("io.CopyN", "io.CopyN(dst, src, n): moves min(n, available) bytes; nil iff n bytes were moved, io.EOF otherwise; allocation proportional to the bytes moved",
 		func(x *Exec, st *State, fr *Frame, cc *ssa.CallCommon, args []Val, instr ssa.Instruction) []Outcome {
@@ -639,6 +657,18 @@ func init() {
 			}
 			rem := rd.get(st)
 			rl := sLen(SSeqI, rem)
+			var pre []Outcome
+			if x.faulty && x.fallibleSource(st, args[1]) {
+				f := st.fork()
+				k := f.fresh("copied", SInt)
+				f.assume(tAnd(tCmp("<=", "0", k), tCmp("<=", k, rl), tCmp("<=", k, n)))
+				w.set(f, sApp(SSeqI, w.get(f), sSl(SSeqI, rem, "0", k)))
+				rd.set(f, sSl(SSeqI, rem, k, rl))
+				x.markFailed(f, "read")
+				e := x.freshErr(f, "copyerr")
+				f.assume(tNot(tEq(e.Class, "1")))
+				pre = append(pre, Outcome{f, TupleV{TV{SInt, k}, e}})
+			}
 			short := st.fork()
 			short.assume(tAnd(tCmp("<", rl, n)))
 			w.set(short, sApp(SSeqI, w.get(short), rem))
@@ -649,7 +679,7 @@ func init() {
 			st.assume(tCmp("<=", "0", n))
 			w.set(st, sApp(SSeqI, w.get(st), sSl(SSeqI, rem, "0", n)))
 			rd.set(st, sSl(SSeqI, rem, n, rl))
-			return []Outcome{{short, TupleV{TV{SInt, rl}, ErrV{Class: "1", Wrapped: "false"}}}, {st, TupleV{TV{SInt, n}, nilErr()}}}
+			return append(pre, []Outcome{{short, TupleV{TV{SInt, rl}, ErrV{Class: "1", Wrapped: "false"}}}, {st, TupleV{TV{SInt, n}, nilErr()}}}...)
 		})
 	ext("io.ReadAll", "io.ReadAll(r): everything r yields until EOF",
 		func(x *Exec, st *State, fr *Frame, cc *ssa.CallCommon, args []Val, instr ssa.Instruction) []Outcome {
@@ -778,4 +808,47 @@ func verbIndex(format string, verb byte) int {
 		idx++
 	}
 	return -1
+}
+
+// fallibleSource: in fault mode, a reader whose bytes ultimately come from a
+// caller-supplied object (anything but an in-memory bytes.Reader/Buffer built
+// in the verified code) may fail at any read.
+func (x *Exec) fallibleSource(st *State, v Val) bool {
+	switch u := v.(type) {
+	case IfaceV:
+		if u.Sym != "" {
+			return true
+		}
+		if u.Payload != nil {
+			return x.fallibleSource(st, u.Payload)
+		}
+	case PtrV:
+		if u.Ref == "" {
+			return false
+		}
+		switch ghostFor(u.Elem) {
+		case "bytes.Buffer", "bytes.Reader":
+			return false
+		case "io.SectionReader":
+			d := x.w.DTByName(u.RootSort)
+			src := d.Get(2, st.heapSelect(u.RootSort, u.Ref))
+			// the source is infallible only if it is a bytes.Reader allocated here
+			if rs := x.w.DTByName("T_bytes_Reader"); rs != nil {
+				h := st.heap("T_bytes_Reader")
+				for {
+					dd, ok := st.x.heapDefs[h]
+					if !ok {
+						break
+					}
+					if dd.ref == src {
+						return false
+					}
+					h = dd.prev
+				}
+			}
+			return true
+		}
+		return true
+	}
+	return false
 }
